@@ -525,6 +525,28 @@ func cmdCheck(mode string, args []string) int {
 	os.MkdirAll(filepath.Join(outDir, "evidence"), 0o755)
 	b, _ := json.MarshalIndent(ev, "", " ")
 	os.WriteFile(filepath.Join(outDir, "evidence", *prop+".json"), append(b, '\n'), 0o644)
+	if os.Getenv("GOVC_DEBUG") != "" {
+		// the claimed obligations that needed the individual race, slowest first
+		type slow struct {
+			name   string
+			secs   float64
+			solver string
+		}
+		var sl []slow
+		for _, o := range oblNames {
+			if r := byName[o]; r != nil && r.Status == "discharged" && strings.Contains(r.Solver, "/") {
+				sl = append(sl, slow{o, r.Secs, r.Solver})
+			}
+		}
+		sort.Slice(sl, func(i, j int) bool { return sl[i].secs > sl[j].secs })
+		for i, x := range sl {
+			if i >= 8 {
+				break
+			}
+			fmt.Fprintf(os.Stderr, "raced: %-70s %.1fs %s\n", x.name, x.secs, x.solver)
+		}
+		fmt.Fprintf(os.Stderr, "raced obligations: %d of %d\n", len(sl), nOb)
+	}
 	fmt.Printf("%s: %d/%d claimed obligations discharged (%d functions, %d open unclaimed, %d known findings) in %.1fs\n", *prop, nDis, nOb, len(fuc), len(open), len(knownHit), time.Since(t0).Seconds())
 	if violations > 0 {
 		return 1
